@@ -40,15 +40,31 @@ type Case struct {
 	N2    int64  `json:"n2,omitempty"`   // nested-section: length of the outer section
 	Fault Fault  `json:"fault"`
 	Ops   []Op   `json:"ops"`
+	// Probe: when the cursor is observed with Seek(0, SeekCurrent). "" after every step; "sparse" after about half of
+	// the steps (a pure function of the case and the step) and after the last one; "end" after the last step only -
+	// so that a Seek, a truncated or a failed Write is followed DIRECTLY by the next Write / WriteAt.
+	Probe string `json:"probe,omitempty"`
+}
+
+// probeAfter: is the cursor observed after step si of the case?
+func probeAfter(c Case, si int) bool {
+	switch c.Probe {
+	case "end":
+		return si == len(c.Ops)-1
+	case "sparse":
+		return si == len(c.Ops)-1 || vk.Mix(uint64(si)*0x9e3779b97f4a7c15^uint64(len(c.Ops))<<40^uint64(c.Off))&1 == 0
+	}
+	return true
 }
 
 var checker = &vk.Checker[Case]{
 	ID: "C18",
 	Rule: "sections (off in {0,1,7,100,509,4094,2^32+5,2^62} or log-uniform below 2^62, n in {0,1,2,8,64} or log-uniform in [1, 2^14)) or AtToWriter(w, off), also stacked on an inner SectionWriter (nested), over a recording in-memory WriterAt with a fault plan (none; capacity C: bytes at absolute offset >= C refused after writing those below with (m<len, errFull); one-shot: the first write covering a trip offset stores the bytes before it and fails with errIO; fullerr: the first write covering a trip offset stores ALL its bytes and still returns (len, errLate); shortnil: the first write covering a trip offset stores the bytes before it and returns (m<len, nil) - not a conformant io.WriterAt, see the latitude); " +
-		"histories of <= 40 (thorough <= 200) steps: Write(len 0, 1, .., exactly to the limit, crossing it, log-uniform up to 2^14; an empty buffer is nil in about half of the steps, about half of the buffers start at an odd address inside a larger buffer), WriteAt(buf, o in [-2, n+3] or at the top of int64), Seek(offset in [-n-3, n+3] or 2^33, whence in {0,1,2,3,-1}), Size; AtToWriter histories also around a far section-relative position F (2^34 <= F <= 2^61, log-uniform and 2^k-1, 2^k, 2^k+1) and single WriteAt calls at such offsets; each buffer carries a per-step byte pattern; fixed histories for every section length 2^k-1, 2^k, 2^k+1 and two more per octave (k <= 20, thorough 22) under every fault kind (the quick tier thins them out: every second combination above 2^12, two histories per octave above 2^16), for every far position 2^34..2^61, and with buffers of several MiB. " +
-		"Reference model: base/cursor/limit + expected memory image + expected (n, error class) per step; after EVERY step: return values, every byte the recorder received lies inside [off, off+n), the memory image (position and content of every byte that landed) == model (the number of underlying calls is not asserted), cursor == model (observed via Seek(0, SeekCurrent)), Size()==n. " +
-		"Latitude the statement leaves (all accepted): an error that wraps the expected one (errors.Is) counts as that error; an EMPTY request inside the writer's own section need not reach the underlying writer (its error may or may not surface); a request that is truncated AND fails may return either error; a Seek beyond the section end may be refused if the cursor then stays; the error value for a negative WriteAt offset (count 0); AtToWriter offsets beyond 2^61; how a request is cut into underlying calls: under fullerr the count may be anything from the trip offset's byte to the whole request as long as exactly that prefix landed and the cursor follows it; under shortnil (the writer breaks the io.WriterAt contract) only this is asserted: the count is the prefix that landed (the bytes before the trip offset, or the whole request if the implementation re-issues the rest), the cursor advanced by it, the error IS io.ErrShortWrite if the writer's own section end cut the request, is NOT io.ErrShortWrite if the request fits the section (nil or any other error), and is open if only an inner section's end cut it. " +
-		"Non-trivial: >= 2 writes with a Seek or a truncated/failed/short write before a later write. Distinct by hash of the history.",
+		"histories of <= 40 (thorough <= 200) steps: Write(len 0, 1, .., exactly to the limit, crossing it, log-uniform up to 2^14; an empty buffer is nil in about half of the steps, about half of the buffers start at an odd address inside a larger buffer), WriteAt(buf, o in [-2, n+3] or at the top of int64), Seek(offset in [-n-3, n+3] or 2^33, whence in {0,1,2,3,-1}), Size; AtToWriter histories also around a far section-relative position F (2^34 <= F <= 2^61, log-uniform and 2^k-1, 2^k, 2^k+1) and single WriteAt calls at such offsets; each buffer carries a per-step byte pattern; fixed histories for every section length 2^k-1, 2^k, 2^k+1 and two more per octave (k <= 20, thorough 22) under every fault kind (the quick tier thins them out: every second combination above 2^12, two histories per octave above 2^16), for every far position 2^34..2^61, with buffers of several MiB, and Write-ONLY histories on AtToWriter (near start, start 2^62 up to a full device, over an inner section that ends only there) whose few large Writes carry the cursor beyond 2^24 (thorough 2^26) bytes. " +
+		"When the cursor is observed is part of the case (probe): after every step (two thirds of the random histories, all size-grid histories), after about half of the steps, or after the last step only - then a Seek (accepted or refused), a truncated and a failed Write are followed DIRECTLY by the next Write (the small fixed histories, the invalid-whence and the far-position histories run in these modes too). " +
+		"Reference model: base/cursor/limit + expected memory image + expected (n, error class) per step; after EVERY step: return values, every byte the recorder received lies inside [off, off+n), the memory image (position and content of every byte that landed) == model (the number of underlying calls is not asserted), cursor == model (observed via Seek(0, SeekCurrent) after the steps the probe plan names; where it is not observed, the next Write shows through the image where the cursor was), Size()==n. " +
+		"Latitude the statement leaves (all accepted): an error that wraps the expected one (errors.Is) counts as that error; an EMPTY request inside the writer's own section need not reach the underlying writer (its error may or may not surface); a request that is truncated AND fails may return either error; a Seek beyond the section end may be refused if the cursor then stays; the error value for a negative WriteAt offset (count 0); AtToWriter offsets beyond 2^61; AtToWriter is declared to return an io.Writer: if the value offers no Seek / WriteAt, those steps and the cursor observation are skipped (counted in the classes attowriter-without-seek:* / attowriter-without-writeat:*; the history then degenerates into Write-only from the start, and 'no practical end' rests on the Write-only histories beyond 2^24 / 2^26 bytes and on far START offsets - positions that only a Seek could reach are then not exercised); how a request is cut into underlying calls: under fullerr the count may be anything from the trip offset's byte to the whole request as long as exactly that prefix landed and the cursor follows it; under shortnil (the writer breaks the io.WriterAt contract) only this is asserted: the count is the prefix that landed (the bytes before the trip offset, or the whole request if the implementation re-issues the rest), the cursor advanced by it, the error IS io.ErrShortWrite if the writer's own section end cut the request, is NOT io.ErrShortWrite if the request fits the section (nil or any other error), and is open if only an inner section's end cut it. " +
+		"Non-trivial: >= 2 writes with a Seek or a truncated/failed/short write before a later write. Distinct by hash of the history (probe plan included).",
 	Check:    check,
 	Classify: classify,
 }
@@ -485,6 +501,8 @@ func check(c Case) *vk.Failure {
 			}
 		case "writeat":
 			if wat == nil {
+				// accepted latitude: AtToWriter is declared to return an io.Writer. What cannot be asked is counted.
+				vk.Label("attowriter-without-writeat:writeat-step-skipped", 1)
 				continue
 			}
 			if m.unbounded && (op.O > farLimit || c.Off > math.MaxInt64-farLimit-int64(op.Len)) {
@@ -514,6 +532,8 @@ func check(c Case) *vk.Failure {
 			}
 		case "seek":
 			if seeker == nil {
+				// (the model's cursor is not moved either: the history goes on as a Write-only history)
+				vk.Label("attowriter-without-seek:seek-step-skipped", 1)
 				continue
 			}
 			before := m.cur
@@ -560,8 +580,11 @@ func check(c Case) *vk.Failure {
 		if at, differ := rec.img.diff(m.img); differ {
 			return vk.Failf("image", "%s: the bytes that landed differ from the model at absolute offset %d (section-relative %d)", step, at, at-c.Off)
 		}
-		// cursor, observed without moving it
-		if seeker != nil {
+		// cursor, observed without moving it (not after every step of a case with a sparse probe plan: the
+		// next Write / WriteAt then follows the step directly, and shows through the image where the cursor was)
+		if seeker == nil {
+			vk.Label("attowriter-without-seek:cursor-assertion-skipped", 1)
+		} else if probeAfter(c, si) {
 			var pos int64
 			var err error
 			if f := vk.Try(step+" then Seek(0, SeekCurrent)", func() { pos, err = seeker.Seek(0, io.SeekCurrent) }); f != nil {
@@ -622,7 +645,16 @@ func classify(c Case) (bool, []string) {
 	m := modelFor(c)
 	writes, disturbed, nt := 0, false, false
 	trunc, failed, seeks, far, late, silent, long := false, false, false, false, false, false, false
-	for _, op := range c.Ops {
+	// direct: the previous step was a Seek / a truncated or failed write and the cursor was NOT observed after it
+	directSeek, directBad, seekThenWrite, badThenWrite := false, false, false, false
+	reach := int64(0) // writers without an end of their own: how far Write ALONE (no Seek accepted so far) carried the cursor
+	for si, op := range c.Ops {
+		if op.K == "write" {
+			seekThenWrite, badThenWrite = seekThenWrite || directSeek, badThenWrite || directBad
+		}
+		if op.K != "size" {
+			directSeek, directBad = false, false
+		}
 		switch op.K {
 		case "write", "writeat":
 			var n int
@@ -653,12 +685,17 @@ func classify(c Case) (bool, []string) {
 			if lat.fired == "shortnil" {
 				silent, disturbed = true, true
 			}
+			directBad = (err != nil || lat.fired != "") && !probeAfter(c, si)
+			if op.K == "write" && !bounded2(c.Kind) && !seeks && n > 0 {
+				reach = m.cur - m.base
+			}
 			late = late || lat.fired == "fullerr"
 			far = far || (m.unbounded && lat.passed && at >= 1<<34)
 			long = long || n > 68
 		case "seek":
 			if _, ok := m.seek(op.O, op.Whence); ok {
 				seeks, disturbed = true, true
+				directSeek = !probeAfter(c, si)
 			}
 		}
 	}
@@ -666,10 +703,14 @@ func classify(c Case) (bool, []string) {
 		on   bool
 		name string
 	}{{trunc, "has-truncated-write"}, {failed, "has-underlying-error"}, {late, "has-error-with-full-count"}, {silent, "has-short-count-without-error"},
-		{seeks, "has-seek"}, {far, "has-write-at-far-offset(>=2^34)"}, {long, "has-write-longer-than-68-bytes"}} {
+		{seeks, "has-seek"}, {seekThenWrite, "has-seek-directly-followed-by-write(no-cursor-probe-between)"},
+		{badThenWrite, "has-truncated/failed-write-directly-followed-by-write(no-cursor-probe-between)"}, {c.Probe != "", "cursor-probe:" + c.Probe}, {far, "has-write-at-far-offset(>=2^34)"}, {long, "has-write-longer-than-68-bytes"}} {
 		if l.on {
 			labels = append(labels, l.name)
 		}
+	}
+	if reach >= 1<<20 {
+		labels = append(labels, fmt.Sprintf("no-end-writer-reached-by-write-alone:2^%d..", bits.Len64(uint64(reach))-1))
 	}
 	return writes >= 2 && nt, labels
 }
@@ -821,6 +862,8 @@ func genCase(t *rapid.T) Case {
 		}
 		c.Ops = append(c.Ops, op)
 	}
+	// when the cursor is observed (drawn last: the histories of a given seed stay what they were)
+	c.Probe = []string{"", "", "", "", "sparse", "end"}[gen.Uniform(t, 6, "probe")]
 	return c
 }
 
@@ -837,8 +880,10 @@ func TestGrid(t *testing.T) {
 	// every invalid whence, in the middle of a history: the Seek is refused and the cursor stays where it was
 	for _, wh := range invalidWhence {
 		checker.Run(t, Case{Kind: "section", Off: 4, N: 20, Fault: Fault{Kind: "none"}, Ops: []Op{{K: "write", Len: 3}, {K: "seek", O: 2, Whence: wh}, {K: "write", Len: 2}, {K: "seek", O: 0, Whence: 1}, {K: "seek", O: -1, Whence: wh}, {K: "write", Len: 1}, {K: "size"}}})
+		// the same with no cursor observation between the steps: the refused Seek is followed directly by the Write
+		checker.Run(t, Case{Kind: "section", Off: 4, N: 20, Fault: Fault{Kind: "none"}, Probe: "end", Ops: []Op{{K: "write", Len: 3}, {K: "seek", O: 2, Whence: wh}, {K: "write", Len: 2}, {K: "seek", O: 1, Whence: 1}, {K: "seek", O: -1, Whence: wh}, {K: "write", Len: 1}, {K: "size"}}})
 	}
-	for _, c := range []Case{
+	fixed := []Case{
 		{Kind: "section", Off: 7, N: 8, Fault: Fault{Kind: "none"}, Ops: []Op{{K: "write", Len: 3}, {K: "write", Len: 3}, {K: "write", Len: 3}, {K: "write", Len: 1}}},
 		{Kind: "section", Off: 100, N: 8, Fault: Fault{Kind: "none"}, Ops: []Op{{K: "seek", O: 2, Whence: 0}, {K: "write", Len: 2}, {K: "seek", O: -1, Whence: 1}, {K: "write", Len: 9}, {K: "seek", O: -3, Whence: 2}, {K: "write", Len: 1}}},
 		{Kind: "section", Off: 1, N: 64, Fault: Fault{Kind: "capacity", C: 10}, Ops: []Op{{K: "write", Len: 5}, {K: "write", Len: 10}, {K: "write", Len: 1}, {K: "writeat", Len: 4, O: 7}}},
@@ -873,8 +918,36 @@ func TestGrid(t *testing.T) {
 		{Kind: "nested-at", Off: 40, N: 24, Off2: 8, Fault: Fault{Kind: "shortnil", C: 50}, Ops: []Op{{K: "write", Len: 10}, {K: "write", Len: 10}, {K: "writeat", Len: 3, O: 1}}},
 		{Kind: "nested-at", Off: 40, N: 24, Off2: 8, Fault: Fault{Kind: "shortnil", C: 60}, Ops: []Op{{K: "write", Len: 10}, {K: "write", Len: 10}, {K: "write", Len: 1}}}, // cut by the inner section only
 		{Kind: "nested-section", Off: 7, N: 64, Off2: 60, N2: 16, Fault: Fault{Kind: "shortnil", C: 69}, Ops: []Op{{K: "write", Len: 3}, {K: "write", Len: 3}, {K: "write", Len: 3}}},
-	} {
+	}
+	for _, c := range fixed {
 		checker.Run(t, c)
+	}
+	// the fixed histories again (those with small buffers), the cursor observed after some steps only / after the last one only:
+	// a Seek, a truncated Write, a failed Write is then followed DIRECTLY by the next Write
+	for _, c := range fixed {
+		if c.N > 1<<16 || c.Ops[0].Len >= 1<<16 {
+			continue
+		}
+		for _, pr := range []string{"sparse", "end"} {
+			c.Probe = pr
+			checker.Run(t, c)
+		}
+	}
+	// "no practical end" through Write ALONE (what is left if the value AtToWriter returns offers no Seek / WriteAt): a few
+	// large Writes carry the cursor beyond 2^24 (thorough: 2^26), from a near and from a far start, also up to a full
+	// device, and through AtToWriter over a section that ends only there
+	{
+		u := vk.Pick(2<<20, 8<<20) // 9u+6 bytes in all
+		lens := []Op{{K: "write", Len: 2*u + 1}, {K: "write", Len: 3 * u}, {K: "write", Len: 3*u + 5}, {K: "write", Len: u}, {K: "write", Len: 7}}
+		total := int64(9*u + 6)
+		for _, c := range []Case{
+			{Kind: "attowriter", Off: 100, Fault: Fault{Kind: "none"}},
+			{Kind: "attowriter", Off: 1 << 62, Fault: Fault{Kind: "capacity", C: 1<<62 + total - 3}, Probe: "end"},
+			{Kind: "nested-at", Off: 1<<32 + 5, N: 11 + total - 2, Off2: 11, Fault: Fault{Kind: "none"}, Probe: "sparse"},
+		} {
+			c.Ops = lens
+			checker.Run(t, c)
+		}
 	}
 	// "no practical end": AtToWriter around every far section-relative position 2^e (Write through the cursor and WriteAt)
 	for e := uint(34); e <= 61; e++ {
@@ -886,6 +959,8 @@ func TestGrid(t *testing.T) {
 			if e%3 == 0 {
 				c.Fault = Fault{Kind: "oneshot", C: off + f}
 			}
+			checker.Run(t, c)
+			c.Probe = []string{"end", "sparse"}[e%2] // each far Seek followed directly by the Write
 			checker.Run(t, c)
 		}
 	}
